@@ -500,7 +500,23 @@ fn run_workload(plan: &Plan, w: &Workload, run_index: u64, seed: u64, cov: &mut 
             None => {
                 let mut r = Rng::new(mix(mix(seed, run_index), 0x5C4E_D000 + s));
                 let ntasks = w.workers.unwrap_or(3) as u32 + 2;
-                (random_policy(&mut r, ntasks), r.next_u64(), vec![])
+                // deep-queue workloads: half of the schedules hold the hashing thread back (it is the
+                // task spawned after the workers) so that its queue can fill to the shipped capacity
+                let pol = if w.nfull >= 17 && w.hashq_cap == 16 && w.workers.is_some() && r.chance(0.5) {
+                    let hasher = w.workers.unwrap_or(1) as u32 + 1;
+                    if r.chance(0.5) {
+                        Policy::Starve { victims: vec![hasher] }
+                    } else {
+                        Policy::Stall {
+                            victim: hasher,
+                            from: r.below(200) as u32,
+                            len: *r.pick(&[2000u32, 6000, 20000]),
+                        }
+                    }
+                } else {
+                    random_policy(&mut r, ntasks)
+                };
+                (pol, r.next_u64(), vec![])
             }
         };
         plans.push(ExecPlan {
@@ -639,25 +655,15 @@ fn run_workload(plan: &Plan, w: &Workload, run_index: u64, seed: u64, cov: &mut 
                         }
                     }
                     (Err(se), Err(pe)) => {
-                        let kinds: BTreeSet<&str> = w
-                            .faults
-                            .iter()
-                            .map(|f| match f {
-                                Fault::ReadError { .. } => "Source",
-                                _ => "Config",
-                            })
-                            .collect();
-                        if se == pe {
-                            // identical error
-                        } else if kinds.len() > 1 && (pe.kind == "Source" || pe.kind == "Config") {
-                            // mixed-kind plan: par mode reads ahead, either injected kind is legitimate
-                            cov.order_divergent += 1;
-                        } else if se.kind != pe.kind {
+                        // "an error of the same kind single-threaded encoding returns": the kind is the
+                        // EncodeError variant. This also holds for plans that mix fault kinds: frames queued
+                        // before a failed read are still encoded, and a read after a bad block is never
+                        // issued by the single-thread encoder either. A different text within the same kind
+                        // is counted (`order_divergent`), not judged.
+                        if se.kind != pe.kind {
                             violation(pctx, "error_kind_mismatch", format!("single {se:?} vs par {pe:?}"));
-                        } else if se.kind == "Source" && se.text != pe.text {
-                            violation(pctx, "error_value_mismatch", format!("single {se:?} vs par {pe:?}"));
-                        } else if se.kind == "Config" && se.text != pe.text {
-                            violation(pctx, "error_value_mismatch", format!("single {se:?} vs par {pe:?}"));
+                        } else if se != pe {
+                            cov.order_divergent += 1;
                         }
                     }
                     (Err(se), Ok(_)) => {
